@@ -39,6 +39,9 @@ def positions(sub, r):
         "nullable": {"anyOf": [copy.deepcopy(sub), {"type": "null"}]},
         "plainmap": {"type": "object", "additionalProperties": {"type": "integer"}},
         "anymap": {"type": "object"},
+        "keyedany": {"type": "object", "propertyNames": {"pattern": "^[a-z]+$"}, "additionalProperties": True},
+        "patany": {"type": "object", "patternProperties": {"^x-": {}}, "additionalProperties": False},
+        "keyedtyped": {"type": "object", "propertyNames": {"pattern": "^[a-z]+$"}, "additionalProperties": {"type": "integer"}},
         "nested": {"type": "object", "properties": {"deep": {"type": "array", "items": {"type": "object", "additionalProperties": copy.deepcopy(sub)}}}},
     }, "required": ["p", "arr", "tup", "fixed", "m", "nullable"]}
     enum = {"oneOf": [{"type": "string", "enum": ["Unit"]},
@@ -196,6 +199,17 @@ def syntactic(res, settings, info, rep, case):
             n += 1
             if not word_in(newn, ufields.get(fld, "")):
                 viol("use_site_not_renamed", "User." + fld, {"type": ufields.get(fld)})
+    # the is_empty path of every optional map member must belong to the type the member actually has
+    for f in res.get("facts") or []:
+        if f["kind"] != "struct":
+            continue
+        for fld in f.get("fields") or []:
+            ssi = (fld.get("serde") or {}).get("skip_serializing_if")
+            ty = norm(fld.get("ty") or "")
+            if isinstance(ssi, str) and ssi.endswith("::is_empty") and "Map" in ty.split("<")[0]:
+                n += 1
+                if norm(ssi[: -len("::is_empty")]) != ty.split("<")[0]:
+                    viol("map_is_empty_path_mismatch", "%s.%s" % (f["name"], fld.get("ident")), {"type": ty, "attr": ssi})
     if kind == "derive":
         for (m, nm), it in items.items():
             if m == "":
